@@ -30,7 +30,10 @@ Record xcase := mkXCase {
   k_dctx : ctx;                 (* given to Expression.Value *)
   k_mode : Z;                   (* 0 compare; 2 skip (values outside the model's universe) *)
   k_obs : gtree;
-  k_two : list (option (gshallow * gshallow))   (* per top-level block, None: not observed *)
+  k_two : list (option (gshallow * gshallow));  (* per top-level block, None: not observed *)
+  (* root names of the traversals reported by dynblock.ExpandVariablesHCLDec and by
+     dynblock.VariablesHCLDec for the body and the specification; None: not observed *)
+  k_vars : option (list (list Z) * list (list Z))
 }.
 
 Definition diag_ids (ds : list diag) : list Z :=
@@ -135,7 +138,27 @@ Definition case_status (c : xcase) : Z :=
   let s := st_join (tree_status o (k_obs c)) (twos_status c) in
   if (s =? 1) && tree_unsup o then 2 else s.
 
-Definition check_expand_case (c : xcase) : bool := negb (case_status c =? 1).
+(* ---- the reported variables (variables.go) ---------------------------------------------------- *)
+(* compared as sets: Visit ranges over a Go map, and a root may be reported repeatedly *)
+Definition strs_subset (a b : list (list Z)) : bool := forallb (fun x => str_mem x b) a.
+Definition strs_same_set (a b : list (list Z)) : bool := strs_subset a b && strs_subset b a.
+
+(* 0 = agree, 1 = disagree, 2 = not applicable (not observed, or a malformed dynamic block) *)
+Definition vars_status (c : xcase) : Z :=
+  match k_vars c with
+  | None => 2
+  | Some (ge, gv) =>
+      if has_dynbad 64 (k_body c) then 2
+      else if strs_same_set (walk_vars false (k_sch c) None (k_body c)) ge
+              && strs_same_set (walk_vars true (k_sch c) None (k_body c)) gv
+           then 0 else 1
+  end.
+Definition check_vars_case (c : xcase) : bool := negb (vars_status c =? 1).
+Definition check_vars_cases (cs : list xcase) : list Z := failing check_vars_case cs.
+Definition vars_applicable_cases (cs : list xcase) : list Z := failing (fun c => negb (vars_status c =? 0)) cs.
+
+(* the case agrees when both the expansion and the reported variables agree *)
+Definition check_expand_case (c : xcase) : bool := negb (case_status c =? 1) && check_vars_case c.
 Definition check_expand_cases (cs : list xcase) : list Z := failing check_expand_case cs.
 Definition skipped_expand_cases (cs : list xcase) : list Z :=
   failing (fun c => negb (case_status c =? 2)) cs.
